@@ -6,4 +6,5 @@ NONTRIVIAL = {"C01": ["dec_ok", "key_creations"], "C02": ["faulted_ops", "key_cr
               "C09": ["key_creations", "faulted_ops", "metastore_reads"], "C10": ["metastore_reads", "dec_ok"], "C20": ["enc_ok", "dec_ok"]}
 
 def run(ctx):
-    return envelope.run(ctx, "C09", ["AsherahVerif.Props.C09"], NONTRIVIAL["C09"], modes=(('faults', 'boundaries'), ('faultpairs', 'allboundaries')))
+    return envelope.run(ctx, "C09", ["AsherahVerif.Props.C09"], NONTRIVIAL["C09"], modes=(('faults', 'boundaries'), ('faultpairs', 'allboundaries')),
+                        extra_runs=[('protectedmemory', ['-mode', 'random', '-cases', '400' if ctx.tier == 'quick' else '6000', '-len', '50', '-secret', 'protected'], {})])
